@@ -33,7 +33,7 @@ def plan(tier):
 
 
 def gen_cases(ctx):
-    n = ctx.share(ctx.scale(4000, 400000))
+    n = ctx.share(ctx.scale(4000, 1200000))
     if ctx.mode == "interp":
         n = 300
     for i in range(n):
